@@ -87,7 +87,7 @@ def run(ctx):
                 calls.append({'op': 'add_node', 'v': rnd.randrange(n + 2), 'g': g})
             else:
                 calls.append({'op': rnd.choice(['edges', 'sources', 'sccs']), 'g': g})
-        behs.append({'calls': calls, 'family': 'random history', 'naming': rnd.choice(['int', 'str', 'tuple']),
+        behs.append({'calls': calls, 'family': 'random history', 'naming': rnd.choice(['int', 'str', 'tuple', 'obj']),
                      'shuf': rnd.randrange(1 << 30)})
     fams = {}
     for b in behs:
